@@ -110,7 +110,8 @@ fn c04_execute() {
     let approved = status == 1 && a_contract == its() && a_chain == source_chain && a_id == message_id && a_src == source_address && a_ph == ph;
     // what the decoder says
     let ty = any_abi_type();
-    let origin = any::string(2);
+    // the origin named inside the wrapper: a short arbitrary name, or the very chain the delivery came from (the hub's own name)
+    let origin = if kani::any() { source_chain.clone() } else { any::string(2) };
     let inb = any_inbound(&env);
     let wrapper: u8 = kani::any();
     let dec: Result<HubMessage, ContractError> = match wrapper {
